@@ -241,6 +241,21 @@ wexp(L(_)) == N("Sum", << P2(2, L("r")), P2(3, Sq(L("s"))), P2(-5, L("t")), P2(7
 fexp(L(_)) == N("Sum", << B("FloorDiv", N("Sum", << L("b"), P2(11, L("a")) >>), KI(3)),
                          N("Product", << L("c"), V("d") >>) >>)
 mvs == N("Sum", << MV("r"), V("q") >>)
+\* (round 7) user node types by decorator options: per way of coming by a hash x init, a leaf
+\* and an inner node that carries the leaf below a stock node
+oil  == User("C17OiLeaf", << "l", "t" >>, << >>)
+oia  == User("C17Oi", << "n" >>, << N("Sum", << vx, oil >>) >>)
+OIV(n) == User("C17OiVar", << n, "t" >>, << >>)
+NHV(n) == User("C17NhVar", << n, "t" >>, << >>)
+ONV(n) == User("C17OiNhVar", << n, "t" >>, << >>)
+oim  == User("C17OiMid", << "m" >>, << OIV("v"), oia >>)
+ois  == User("C17OiSub", << "s" >>, << vy, B("Power", oil, KI(2)) >>)
+onl  == User("C17OiNhLeaf", << "l" >>, << >>)
+onh  == User("C17OiNh", << "n" >>, << N("Sum", << vx, onl >>) >>)
+nhl  == User("C17NoHashLeaf", << "l" >>, << >>)
+nhi  == User("C17NoHash", << "n" >>, << N("Product", << vx, nhl >>) >>)
+nhp  == User("C17NhPair", << "tg" >>, << N("Sum", << NHV("v"), KI(1) >>), vx, KI(2) >>)
+ons  == User("C17OiNhSub", << "n" >>, << N("Product", << ONV("v"), vy >>), KI(3) >>)
 
 Cat == <<
   (* 1*) E(vx),
@@ -418,7 +433,28 @@ Cat == <<
                << "k", "r" >>, << "q" >>, "same"),
   (*135*) CV(N("Sum", << Call(mfn("fabs"), << N("Sum", << P2(2, MV("u")), P2(-3, MV("h")) >>) >>),
                         P2(5, MV("e")), P2(7, V("g")) >>),
-             << "u", "e" >>, << "g", "h" >>, "same")
+             << "u", "e" >>, << "g", "h" >>, "same"),
+  \* ---- round 7: user node types declared with every option combination of the decorator
+  \* (init=False with a hand-written __init__, hash=False with an own / an inherited hash), as
+  \* root, below stock nodes, inside each other, as the leaves of a compiled expression ----
+  (*136*) E(oia),                                                 \* init=False: inner (leaf below a Sum below it)
+  (*137*) E(oil),                                                 \* init=False: leaf
+  (*138*) E(User("C17Oi", << "n" >>, << N("Sum", << vx, User("C17OiLeaf", << "l", "u" >>, << >>) >>) >>)),  \* != (136)
+  (*139*) E(oim),                                                 \* ... under a plain intermediate class
+  (*140*) E(OIV("v")),                                            \* ... leaf under a stock dataclass node
+  (*141*) E(ois),                                                 \* ... under a user dataclass node
+  (*142*) E(onh),   (*143*) E(onl),                               \* init=False, hash=False, own hash
+  (*144*) E(nhi),   (*145*) E(nhl),                               \* hash=False, own hash
+  (*146*) E(nhp),   (*147*) E(NHV("v")),                          \* hash=False, inherited hash
+  (*148*) E(ons),   (*149*) E(ONV("v")),                          \* init=False, hash=False, inherited hash
+  \* all the inner ones below stock nodes
+  (*150*) E(N("Sum", << P2(2, oia), B("Power", oim, KI(2)), Call(V("f"), << ois, onh >>),
+                        IfE(cond, nhp, ons), nhi >>)),
+  (*151*) ESH(N("Sum", << N("Product", << oia, oia >>), Call(V("f"), << oia, oil >>) >>)),   \* a DAG over them
+  \* compiled expressions written over leaf subclasses declared with options
+  (*152*) CV(wexp(OIV), << "s", "t" >>, << "q", "r" >>, "same"),
+  (*153*) CV(fexp(NHV), << "c", "a" >>, << "b", "d" >>, "same"),
+  (*154*) CV(wexp(ONV), << "r" >>, << "q", "s", "t" >>, "same")
 >>
 NCat == Len(Cat)
 CatIds == 1..NCat
@@ -476,6 +512,16 @@ CompiledValue(i, args) ==
                    IntV(args[CHOOSE k \in 1..Len(names) : names[k] = n])]
     IN Eval(Plain(Cat[i].e), env @@ CtxEnv(i))
 
+\* (round 7) where instances of a user class occur in the catalogue: << is a leaf (no children),
+\* "root" | "below-stock" (directly below a node that is not a user / legacy node) >>
+OccursAt(cls) ==
+    UNION { LET e == Cat[i].e IN
+            (IF e.t = "User" /\ e.cls = cls THEN { << Len(e.c) = 0, "root" >> } ELSE {})
+            \cup UNION { { << Len(XKids(u)[k].c) = 0, "below-stock" >> :
+                             k \in {n \in 1..Len(XKids(u)) : XKids(u)[n].t = "User" /\ XKids(u)[n].cls = cls} }
+                         : u \in {w \in XSubExprs(e) : w.t # "User"} }
+          : i \in CatIds }
+
 \* sanity of the catalogue and of PyEq itself (checked by TLC once, in C17_Gen)
 CatalogueSane ==
     /\ \A i \in CatIds : ObjPyEq(i, i)
@@ -510,4 +556,18 @@ CatalogueSane ==
     /\ \A cls \in VarLikeUser \ {"C17Kw2"} : \E i \in CatIds :
           /\ IsCompiled(i) /\ Cat[i].vobj = "same" /\ Len(Cat[i].vars) > 0
           /\ \E u \in VarLeaves(Cat[i].e) : IsSubLeaf(u) /\ u.cls = cls /\ LeafName(u) \in SeqToSet(Cat[i].vars)
+    \* (round 7) the option space of the decorator is covered
+    \* every declared class of the catalogue is a usable node type, and every one is used
+    /\ \A cls \in DataclassUser : HashProvided(cls, FALSE) /\ OccursAt(cls) # {}
+    /\ \A cls \in DataclassUser : UserDecl(cls).base = "user" <=> UserDecl(cls).parent \in DataclassUser
+    \* init x (generated / own / inherited hash) x (leaf / inner node) x (root / below a stock node)
+    /\ \A init \in BOOLEAN : \A src \in {"gen", "own", "inherit"} : \A leaf \in BOOLEAN :
+         \A where \in {"root", "below-stock"} :
+          \E cls \in DataclassUser :
+             /\ UserDecl(cls).init = init /\ HashSource(cls) = src
+             /\ << leaf, where >> \in OccursAt(cls)
+    \* a hand-written __init__ under every kind of base
+    /\ \A b \in {"Expression", "plain", "stock", "user"} : \E cls \in DataclassUser :
+          ~UserDecl(cls).init /\ UserDecl(cls).hash /\ UserDecl(cls).base = b
+    /\ ~ObjPyEq(136, 138) /\ ObjSameStruct(136, 136) /\ ~ObjPyEq(140, 147)
 =============================================================================
